@@ -399,6 +399,8 @@ type vDialEv struct {
 }
 
 type vdialer struct {
+	lockNext   bool // the next client handed out has its mu read-locked by the harness
+	lockedCli  *BaseClient
 	flavour    func(conn int) int // transport flavour per connection (see memConn.flavour)
 	stateCalls func(*BaseClient)  // what the application does inside its ConnState callback
 	b          *vbroker
@@ -525,6 +527,14 @@ func (d *vdialer) DialContext(ctx context.Context) (*BaseClient, error) {
 		}
 	}
 	c.cli = cli
+	d.mu.Lock()
+	if d.lockNext {
+		// the runner wants whoever touches this client's lock next to be held up (see step handleStalled)
+		d.lockNext = false
+		cli.mu.RLock()
+		d.lockedCli = cli
+	}
+	d.mu.Unlock()
 	d.b.mu.Lock()
 	d.b.conns[k] = c
 	d.b.mu.Unlock()
